@@ -491,8 +491,16 @@ def g_importfrom_names(T):
     return r
 
 
+def _first_tok(T):
+    try:
+        toks = [t for t in tokenize.generate_tokens(io.StringIO('(\n' + T + '\n)').readline) if t.type not in SKIP_TOK]
+    except Exception:
+        return None
+    return toks[1].string if len(toks) > 2 else None
+
+
 def g_importfrom_names_loose(T):
-    if _semi(T):
+    if _semi(T) or _first_tok(T) == '(':      # parentheses belong to the ImportFrom statement, never to the names
         return None
     r = _imp('from . import (\n' + T + '\n)', ast.ImportFrom)
     if r is None:
